@@ -54,9 +54,13 @@ MixedSteps == <<Get("polygons", TRUE, -1, -1), Get("polygons_paths", FALSE, -1, 
                 Get("robustpaths", TRUE, 2, -1), Get("labels", FALSE, -1, -1), Get("polygons_paths", TRUE, 1, -1),
                 Get("labels", TRUE, 1, 708), S("bbox_c"), S("hull_c"), S("bbox"), S("hull"),
                 S("copy_mutate"), Get("polygons_paths", TRUE, -1, -1), S("flatten_apply"),
-                Get("polygons_paths", FALSE, -1, -1), Get("labels", TRUE, 0, -1), S("bbox"), S("hull")>>
+                Get("polygons_paths", FALSE, -1, -1), Get("labels", TRUE, 0, -1),
+                \* tag-filtered queries on the flattened cell (its paths now carry the composed transforms)
+                Get("robustpaths", TRUE, 0, 102), Get("robustpaths", FALSE, -1, 304), Get("flexpaths", TRUE, 0, 304),
+                Get("polygons", TRUE, 0, 506), Get("labels", FALSE, 0, 708), S("bbox"), S("hull")>>
 MixedSteps2 == <<S("hull_c"), S("bbox_c"), S("hull_c"), Get("flexpaths", TRUE, -1, -1), S("flatten_keep"),
                  Get("flexpaths", TRUE, 0, -1), Get("polygons_paths", TRUE, 0, -1), Get("labels", FALSE, 0, -1),
+                 Get("robustpaths", TRUE, 0, 304), Get("flexpaths", FALSE, 0, 102), Get("robustpaths", FALSE, 0, -1),
                  S("bbox_c"), S("hull")>>
 ChainTuples == {t \in Idx(Pal) \X Idx(Pal) \X {1, 3, 4} \X {1, 2, 6} \X {1, 2} :
                   Depth = "thorough" \/ (t[3] = 4 /\ t[4] = 6 /\ t[5] = 1 + ((t[1] + t[2]) % 2))}
